@@ -260,6 +260,10 @@ func evalOp(c *mon.Ctx, g *groups.Group, op groups.Op, key string, pts []pp, rep
 	if c.Guard(key+"/panic", desc, func() { out = op.F(reps, nil) }) {
 		return
 	}
+	if out.Sys == "note" {
+		c.Fail(key+"/returned-pointer-is-not-the-receiver/"+cls, "%s: %s", desc(), out.Note)
+		return
+	}
 	for i, r := range reps {
 		if g.Str(r) != before[i] {
 			c.Fail(key+"/harness-input-changed", "%s", desc())
